@@ -118,6 +118,19 @@ CLAIMED['C18'] = ('TLA+ spec TBRModel.tla (effect-series identities; exact monot
                   'and tails; where it is not, the ValueError is the recorded finding and anything else is a violation.',
                   'scipy quantiles trusted; known findings C18:scale-not-monotone, C18:level-le-half. ' + TRUST, 'DESIGN.md section 4 C18')
 
+CLAIMED['C07'] = ('TLA+ specs IROASModel.tla (scenario test, fixed / variable branches on top of TBRModel, fixed-cost identities and the cost/response scaling law) '
+                  'and IROASHistory.tla (all call histories of summary(random_state) on one / fresh objects, memo invariant), model-checked; cases and histories replayed into TBRiROAS.summary',
+                  'Fixed-cost: every report column compared with exact rationals for enumerated data sets, both cooldown settings, levels, tails, thresholds; '
+                  'variable-cost: label, ordering, determinism over all 512 three-call histories, equivariance under power-of-two scaling of cost and response '
+                  '(including 1/64, which exposes a careless order-of-magnitude test); scenario label decided exactly on integer costs.',
+                  'The statistical correctness of the simulated percentiles is not specified; scipy quantiles trusted. ' + TRUST, 'DESIGN.md section 4 C07')
+CLAIMED['C05'] = ('TLA+ spec ImpactModel.tla: one operator PostScaleSq shown equal (exact rationals) to the analysis-side posterior variance, the day loop and the design-side tbrfit; '
+                  'required impact with PLANTED rational quantiles checked for calibration, linear scaling, shift invariance and monotonicity in r^2; replayed into TBRMMDiagnostics and tbr.TBR',
+                  'Quantiles are planted through scipy cdfs so that the transcendental part cancels: required_impact^2 must equal the rational TLC printed, and the '
+                  'experiment the property describes must be estimated with estimate = RI, scale^2 = PostScaleSq, lower = q_p * scale; laws re-checked on random float series.',
+                  'ppf(cdf(q)) = q for scipy t and F is trusted (verified to 1e-10 at run time); what is decided is that both code paths implement the same rational function. ' + TRUST,
+                  'DESIGN.md section 4 C05')
+
 PENDING_REASON = 'check not built yet in this round (planned, see DESIGN.md section 10); not claimed until it runs'
 
 
